@@ -39,7 +39,8 @@ COMPONENTS = {
     'stub': ['probe configurables generated from specs'],
 }
 ASSUMPTIONS = ['binds never race with calls (gin promises nothing there)']
-KINDS = ('fn', 'fn', 'cls_init', 'cls_new', 'method')
+KINDS = ('fn', 'fn', 'fn', 'cls_init', 'cls_init', 'cls_new', 'cls_new',
+         'method', 'method', 'callable_obj')
 
 
 def _scope(rng, maxd=3):
@@ -65,6 +66,10 @@ def gen(rng, tier, allow_required=False, mod_id='C01'):
   for i in range(nprobes):
     s = cm.gen_spec(rng, 'q%d' % i, allow_required=allow_required, kinds=KINDS,
                     lists=allow_required, module='mm.s%d' % (i % 2))
+    if s['kind'] == 'callable_obj':
+      # an instance has no __name__: only external_configurable(obj, name=...)
+      s['api'] = 'external'
+      s['regname'] = s['name']
     specs.append(s)
   if allow_required and rng.random() < 0.3:
     # a registered method of a registered class (selector `Class.method`)
